@@ -27,20 +27,26 @@ import (
 func TestMain(m *testing.M) {
 	stats.Describe("exploration",
 		"rapid schedules in synctest bubbles over a real swarm (TestSwarmSchedules) and a real BasicHost on top of it (TestHostSchedules) with scripted transports "+
-			"(tcp, quic, circuit; relayed conns limited or unlimited): initial connection set (none / limited / direct / unlimited-relay / mixed / one closing at t=0), per-address "+
-			"dial scripts, a timeline of inbound connections appearing, connections closing (remote or local) and bystander-peer connections, 1-4 callers of NewStream / DialPeer / Connect "+
+			"(tcp, quic, circuit; relayed conns limited or unlimited): initial connection set (none / limited / direct / unlimited-relay / mixed / one closing at t=0; members in the CLOSING state: the transport conn "+
+			"already reports IsClosed() and opens no stream while its AcceptStream has not returned, so the swarm still lists it - closing direct next to live limited, closing direct alone, "+
+			"closing limited next to live direct, ...), per-address "+
+			"dial scripts, a timeline of inbound connections appearing, connections closing (remote or local), open connections silently entering the closing state (each isolated between "+
+			"two quiescence points), closing connections being reaped (remote or through the swarm) or never, and bystander-peer connections, 1-4 callers of NewStream / DialPeer / Connect "+
 			"with {allow-limited, force-direct, no-dial}, cancel instants, deadlines and dial-peer timeouts on a shared coarse time grid (equal instants race for real). Oracle = "+
 			"validity predicates over the harness' own connection history (permission; a stream at once when a non-limited conn is present; exact release instant and outcome of "+
 			"every caller that is certainly waiting (shapes A: limited-only at start, B: own relay dial produced the limited conn, C: no-dial caller seen blocked at a quiescence point); "+
-			"force-direct results; proxy-transport dial rule; Connectedness and EvtPeerConnectednessChanged against a reference model at every quiescence point; Conn.NewStream probes; "+
+			"force-direct results; proxy-transport dial rule; Connectedness against a reference model (closing conns count as closed: limited-only => Limited, only closing => NotConnected) at every quiescence point; "+
+			"the last EvtPeerConnectednessChanged equals the model too, except that after a silent closing it may stay what it was until the harness next makes the swarm add/remove a conn of that peer; Conn.NewStream probes; "+
 			"bounded termination and a clean bubble exit after a late direct conn). Hole punching (TestHolePunch*): real "+
 			"holepunch.Service on a recording host.Host wrapper around the real BasicHost; generated DCUtR dialogues on relayed / direct, inbound / outbound conns and DirectConnect "+
 			"with scripted dial outcomes and inbound direct conns. Non-trivial = a waiter that is certainly blocked sees the connection set change (or another caller return) before "+
-			"it is released, or a mixed limited/non-limited set exists when a caller starts; for hole punching: a dialogue that reaches the dial stage with relay addresses mixed in, "+
+			"it is released, or a mixed limited/non-limited set exists when a caller starts, or a closing-but-listed conn stands next to a live conn of the other kind (limited vs non-limited) "+
+			"at a quiescence point; for hole punching: a dialogue that reaches the dial stage with relay addresses mixed in, "+
 			"or a stream on a non-relayed conn. Distinct = distinct abstract timeline incl. outcomes.",
 		"scripted transports stand in for real transports/relays; Stat().Limited and Transport().Proxy() are set by the harness (limited implies proxy)",
 		"events at the same virtual instant race for real; the oracle only judges callers whose stage is certain from the recorded history and accepts either order otherwise",
 		"dial orchestration itself (dedup, caps, back-off) is C05's subject and is not re-asserted here",
+		"the closing state is produced by the harness' conn wrapper (IsClosed()=true, OpenStream fails, AcceptStream still blocked); it stands for the window between a transport noticing the close and the swarm's accept loop reaping the conn, held open for arbitrary virtual time",
 	)
 	hx.Main(m)
 }
@@ -72,6 +78,8 @@ const (
 	evAdd evKind = iota
 	evClose
 	evAddOther
+	evMark // an open conn starts closing: transport reports IsClosed, the swarm is not told
+	evReap // a closing conn is really closed (remote) or closed through the swarm (local): it is reaped
 )
 
 type tlEvent struct {
@@ -92,6 +100,14 @@ func (e tlEvent) String() string {
 			how = "l"
 		}
 		return fmt.Sprintf("%v:-%d%s", e.at, e.pick, how)
+	case evMark:
+		return fmt.Sprintf("%v:~%d", e.at, e.pick)
+	case evReap:
+		how := "r"
+		if e.local {
+			how = "l"
+		}
+		return fmt.Sprintf("%v:x%d%s", e.at, e.pick, how)
 	}
 	return fmt.Sprintf("%v:+Q", e.at)
 }
@@ -132,10 +148,43 @@ func (c callerSpec) String() string {
 type scenario struct {
 	host       bool
 	negTimeout time.Duration
-	initial    []class
+	initial    []initConn
 	d1, d2, r  addrScript
 	events     []tlEvent
 	callers    []callerSpec
+}
+
+// initConn is a member of the initial connection set. closing: right after the swarm has
+// taken the connection, its transport starts reporting IsClosed() without the swarm being told
+// (the connection stays listed until it is reaped by a later timeline event or at the end).
+type initConn struct {
+	cls     class
+	closing bool
+}
+
+func (i initConn) String() string {
+	if i.closing {
+		return strings.ToLower(i.cls.String())
+	}
+	return i.cls.String()
+}
+
+// parseInit: 'L' 'D' 'U' = live connection of that class, lower case = closing.
+func parseInit(s string) []initConn {
+	var out []initConn
+	for _, ch := range s {
+		ic := initConn{closing: ch >= 'a' && ch <= 'z'}
+		switch ch {
+		case 'L', 'l':
+			ic.cls = clsL
+		case 'D', 'd':
+			ic.cls = clsD
+		case 'U', 'u':
+			ic.cls = clsU
+		}
+		out = append(out, ic)
+	}
+	return out
 }
 
 var (
@@ -174,22 +223,26 @@ func drawAddrScript(rt *rapid.T, label string, relay bool) addrScript {
 //	              arriving later (inbound, or dialled by a force-direct caller), conns closing
 //	2 dial-first: no conn at the start, the relay address yields a limited conn, callers dial
 //	3 closing:    a conn is closing at the very instant the callers start
+//	4 closing-state: conns whose transport reports IsClosed() while the swarm still lists them
+//	              (initially and on the timeline), next to live conns of the other kind; reaped later or never
 func drawScenario(rt *rapid.T, host bool) *scenario {
 	sc := &scenario{host: host}
-	theme := rapid.SampledFrom([]int{0, 0, 1, 1, 1, 2, 2, 3}).Draw(rt, "theme")
+	theme := rapid.SampledFrom([]int{0, 0, 1, 1, 1, 2, 2, 3, 4, 4}).Draw(rt, "theme")
 	if host {
 		sc.negTimeout = ms(rapid.SampledFrom([]int{-1, -1, 0, 3000}).Draw(rt, "negTimeout"))
 	}
-	inits := [][]class{{}, {clsL}, {clsL}, {clsL}, {clsL}, {clsL, clsL}, {clsD}, {clsU}, {clsL, clsD}, {clsD, clsL}, {clsL, clsU}, {clsL, clsL, clsD}}
+	inits := []string{"", "L", "L", "L", "L", "LL", "D", "U", "LD", "DL", "LU", "LLD", "Ld", "d"}
 	switch theme {
 	case 1:
-		inits = [][]class{{clsL}, {clsL}, {clsL}, {clsL, clsL}}
+		inits = []string{"L", "L", "L", "LL"}
 	case 2:
-		inits = [][]class{{}}
+		inits = []string{""}
 	case 3:
-		inits = [][]class{{clsL}, {clsL, clsL}, {clsL, clsD}, {clsD, clsL}, {clsL, clsU}, {clsD}}
+		inits = []string{"L", "LL", "LD", "DL", "LU", "D"}
+	case 4:
+		inits = []string{"Ld", "Ld", "dL", "dL", "d", "d", "l", "Ll", "lL", "lD", "Dl", "dD", "Lu", "uL", "u", "LD", "LD", "L", "D", "Ldd", "LLd", "ld", "lLd"}
 	}
-	sc.initial = inits[rapid.IntRange(0, len(inits)-1).Draw(rt, "initial")]
+	sc.initial = parseInit(inits[rapid.IntRange(0, len(inits)-1).Draw(rt, "initial")])
 	sc.d1 = drawAddrScript(rt, "d1", false)
 	sc.d2 = drawAddrScript(rt, "d2", false)
 	if rapid.Bool().Draw(rt, "d2-absent") {
@@ -204,6 +257,9 @@ func drawScenario(rt *rapid.T, host bool) *scenario {
 	}
 
 	nev := rapid.IntRange(0, 4).Draw(rt, "nevents")
+	if theme == 4 && nev == 0 {
+		nev = 1
+	}
 	if theme == 3 {
 		if rapid.IntRange(0, 2).Draw(rt, "arrive0") == 0 {
 			// a limited conn ARRIVES at the very instant the callers start
@@ -217,7 +273,19 @@ func drawScenario(rt *rapid.T, host bool) *scenario {
 	}
 	for i := 0; i < nev; i++ {
 		e := tlEvent{at: ms(rapid.SampledFrom(grid).Draw(rt, "ev-at"))}
-		switch rapid.IntRange(0, 9).Draw(rt, "ev-kind") {
+		k := rapid.IntRange(0, 11).Draw(rt, "ev-kind")
+		if theme == 4 {
+			// mostly conns starting to close and being reaped; the rest as everywhere
+			k = []int{10, 10, 10, 10, 11, 11, 0, 5, 6, 9, 4, 10}[k]
+		}
+		switch k {
+		case 10:
+			e.kind = evMark
+			e.pick = rapid.IntRange(0, 3).Draw(rt, "ev-pick")
+		case 11:
+			e.kind = evReap
+			e.pick = rapid.IntRange(0, 3).Draw(rt, "ev-pick")
+			e.local = rapid.IntRange(0, 2).Draw(rt, "ev-local") == 0
 		case 0, 1, 2, 3:
 			e.kind, e.cls = evAdd, clsD
 		case 4:
@@ -268,6 +336,9 @@ func drawScenario(rt *rapid.T, host bool) *scenario {
 			}
 		}
 		starts := []int{0, 0, 0, 10, 100, 1000, 2000, 5000, 10000}
+		if theme == 4 {
+			starts = []int{0, 0, 10, 100, 1000, 2000, 5000}
+		}
 		if theme == 3 {
 			starts = []int{0, 0, 0, 0, 10, 1000}
 		}
@@ -369,6 +440,72 @@ type run struct {
 	qs     []qpoint
 	labels map[string]bool
 	nontr  bool
+	// stale: a connection of the peer started closing without the swarm being told, and the swarm
+	// has not certainly handled a connection of that peer since: the last published event may
+	// still be the (then correct) one recorded here.
+	stale  map[peer.ID]network.Connectedness
+	judged bool
+}
+
+// listed: the swarm lists the connection.
+func (r *run) listed(c *conn) bool {
+	for _, nc := range r.w.sw.ConnsToPeer(c.peer) {
+		if connOf(nc) == c {
+			return true
+		}
+	}
+	return false
+}
+
+// visible: the harness has just made the swarm add or remove a connection of p (program order:
+// after every closing mark so far). The swarm recomputes the peer's connectedness for the event
+// it publishes, so by the next quiescence point the last event must be the model's value again.
+func (r *run) visible(p peer.ID) {
+	sfx := ""
+	if r.judged {
+		sfx = "-postlude" // the late direct conn / teardown after the callers were judged
+	}
+	if _, ok := r.stale[p]; ok {
+		r.labels["event-recomputed-after-silent-closing"+sfx] = true
+	}
+	delete(r.stale, p)
+	for _, c := range r.w.connsTo(p) {
+		if c.closingListed() {
+			r.labels["swarm-handles-conn-while-closing-conn-listed"+sfx] = true
+			break
+		}
+	}
+}
+
+// markClosing moves an open connection into the closing state, isolated between two quiescence
+// points: nothing else happens in between and nothing in the swarm can react to it.
+func (r *run) markClosing(c *conn, what string) {
+	r.quiesce(what + " (before conn #" + fmt.Sprint(c.seq) + " starts closing)")
+	r.stale[c.peer] = r.w.lastEvt[c.peer] // validated just now
+	c.markClosing()
+	r.labels["conn-starts-closing-"+c.cls.String()] = true
+	r.quiesce(what + " (conn #" + fmt.Sprint(c.seq) + " closing, not reaped)")
+}
+
+// closeRemote: the remote side kills an open connection.
+func (r *run) closeRemote(c *conn) {
+	if r.listed(c) {
+		r.visible(c.peer)
+	}
+	c.remoteClose()
+}
+
+// closeLocal closes the connection through the swarm (falls back to the remote side when the
+// swarm does not list it).
+func (r *run) closeLocal(c *conn, orElse func()) {
+	for _, nc := range r.w.sw.ConnsToPeer(c.peer) {
+		if connOf(nc) == c {
+			r.visible(c.peer)
+			nc.Close()
+			return
+		}
+	}
+	orElse()
 }
 
 func (r *run) fail(format string, args ...any) {
@@ -427,15 +564,20 @@ func (r *run) quiesce(what string) {
 			r.fail("%s: Connectedness(%s) = %v, but by the open connections known to the harness it must be %v", what, short(p), got, want)
 		}
 		if got := w.lastEvt[p]; got != want {
-			r.fail("%s: last EvtPeerConnectednessChanged for %s says %v, but the peer is %v", what, short(p), got, want)
+			if st, ok := r.stale[p]; !ok || got != st {
+				r.fail("%s: last EvtPeerConnectednessChanged for %s says %v, but the peer is %v", what, short(p), got, want)
+			}
+			r.labels["event-stale-since-silent-closing"] = true
 		}
 		r.labels["connectedness-"+want.String()] = true
 	}
+	listed := map[*conn]bool{}
 	for _, nc := range w.sw.ConnsToPeer(peerP) {
 		mc := connOf(nc)
 		if mc == nil {
 			r.fail("%s: swarm holds a connection unknown to the harness: %v", what, nc)
 		}
+		listed[mc] = true
 		if nc.Stat().Limited != mc.cls.limited() {
 			r.fail("%s: conn #%d (%s) reports Stat().Limited=%v", what, mc.seq, mc.cls, nc.Stat().Limited)
 		}
@@ -453,6 +595,53 @@ func (r *run) quiesce(what string) {
 			}
 		} else if err == nil {
 			s.Reset()
+		}
+	}
+	// the closing class: which combination of live and closing-but-listed conns was judged here
+	var liveL, liveN, clL, clN, clD int
+	for _, c := range w.connsTo(peerP) {
+		switch {
+		case c.closingListed() && listed[c]:
+			if c.cls.limited() {
+				clL++
+			} else {
+				clN++
+				if c.cls == clsD {
+					clD++
+				}
+			}
+		case !c.IsClosed():
+			if c.cls.limited() {
+				liveL++
+			} else {
+				liveN++
+			}
+		}
+	}
+	switch {
+	case clL+clN == 0:
+	case liveL+liveN == 0:
+		r.labels["closing:only-closing-conns=>NotConnected"] = true
+		if clD == clL+clN {
+			r.labels["closing:direct-alone=>NotConnected"] = true
+		}
+	case liveN == 0:
+		if clN > 0 {
+			r.nontr = true
+			r.labels["closing:nonlimited+live-limited=>Limited"] = true
+			if clD > 0 {
+				r.labels["closing:direct+live-limited=>Limited"] = true
+			}
+		} else {
+			r.labels["closing:limited+live-limited=>Limited"] = true
+		}
+	default:
+		if clL > 0 {
+			r.nontr = true
+			r.labels["closing:limited+live-nonlimited=>Connected"] = true
+		}
+		if clN > 0 {
+			r.labels["closing:nonlimited+live-nonlimited=>Connected"] = true
 		}
 	}
 	q := qpoint{at: time.Now()}
@@ -529,7 +718,7 @@ func (r *run) caller(cr *callRes, wg *sync.WaitGroup) {
 }
 
 func runScenario(t *testing.T, rt *rapid.T, name string, sc *scenario) {
-	r := &run{rt: rt, sc: sc, labels: map[string]bool{}}
+	r := &run{rt: rt, sc: sc, labels: map[string]bool{}, stale: map[peer.ID]network.Connectedness{}}
 	var abstract []string
 	hx.Bubble(t, rt, func() {
 		w := newWorld(worldOpts{host: sc.host, negTimeout: sc.negTimeout, script: r.script}, rt.Fatalf)
@@ -548,10 +737,15 @@ func runScenario(t *testing.T, rt *rapid.T, name string, sc *scenario) {
 			ps.AddProtocols(peerP, "/test/1")
 		}
 		nk := 0
-		for _, cls := range sc.initial {
+		for _, ic := range sc.initial {
 			nk++
-			w.deliver(w.newInbound(peerP, cls, nk))
+			c := w.newInbound(peerP, ic.cls, nk)
+			w.deliver(c)
+			r.visible(peerP)
 			r.quiesce("initial")
+			if ic.closing {
+				r.markClosing(c, "initial")
+			}
 		}
 		time.Sleep(time.Second) // the initial set is strictly older than every caller
 		synctest.Wait()
@@ -585,9 +779,45 @@ func runScenario(t *testing.T, rt *rapid.T, name string, sc *scenario) {
 				case evAdd:
 					nk++
 					w.deliver(w.newInbound(peerP, e.cls, nk))
+					r.visible(peerP)
 				case evAddOther:
 					nk++
 					w.deliver(w.newInbound(peerQ, clsD, nk))
+					r.visible(peerQ)
+				case evMark:
+					var open []*conn
+					for _, c := range w.connsTo(peerP) {
+						if !c.IsClosed() {
+							open = append(open, c)
+						}
+					}
+					if len(open) == 0 {
+						continue
+					}
+					r.markClosing(open[e.pick%len(open)], fmt.Sprintf("t=%v", at))
+				case evReap:
+					var cl []*conn
+					for _, c := range w.connsTo(peerP) {
+						if c.closingListed() {
+							cl = append(cl, c)
+						}
+					}
+					if len(cl) == 0 {
+						continue
+					}
+					c := cl[e.pick%len(cl)]
+					r.labels["closing-conn-reaped"] = true
+					remote := func() {
+						if r.listed(c) {
+							r.visible(peerP)
+						}
+						c.release()
+					}
+					if e.local {
+						r.closeLocal(c, remote)
+					} else {
+						remote()
+					}
 				case evClose:
 					var open []*conn
 					for _, c := range w.connsTo(peerP) {
@@ -600,18 +830,9 @@ func runScenario(t *testing.T, rt *rapid.T, name string, sc *scenario) {
 					}
 					c := open[e.pick%len(open)]
 					if e.local {
-						closed := false
-						for _, nc := range w.sw.ConnsToPeer(peerP) {
-							if connOf(nc) == c {
-								nc.Close()
-								closed = true
-							}
-						}
-						if !closed {
-							c.remoteClose()
-						}
+						r.closeLocal(c, func() { r.closeRemote(c) })
 					} else {
-						c.remoteClose()
+						r.closeRemote(c)
 					}
 				}
 			}
@@ -626,13 +847,21 @@ func runScenario(t *testing.T, rt *rapid.T, name string, sc *scenario) {
 		}
 		wg.Wait()
 		r.judge()
+		r.judged = true
 		// after all waiters are gone: a later direct connection wakes nobody and nothing is left behind
 		nk++
 		w.deliver(w.newInbound(peerP, clsD, nk))
+		r.visible(peerP)
 		r.quiesce("late direct conn")
 		for _, c := range w.snapshotConns() {
-			if !c.IsClosed() && c.seq%2 == 0 {
-				c.remoteClose()
+			switch {
+			case !c.IsClosed() && c.seq%2 == 0:
+				r.closeRemote(c)
+			case c.closingListed() && c.seq%2 == 1:
+				if r.listed(c) {
+					r.visible(c.peer)
+				}
+				c.release()
 			}
 		}
 		r.quiesce("teardown")
@@ -758,6 +987,16 @@ func (r *run) judge() {
 		for _, c := range P {
 			if ct, ok := c.closedAt(); ok && ct.Equal(cr.start) {
 				r.labels["conn-closing-at-caller-start"] = true
+			}
+			// a conn in the closing state (closed for the model, still listed by the swarm) when the caller starts
+			if ct, ok := c.closedAt(); ok && c.closing.Load() && ct.Before(cr.start) {
+				if ns := c.releasedNS.Load(); ns == 0 || time.Unix(0, ns).After(cr.start) {
+					r.labels["caller-starts-with-closing-"+c.cls.String()+"-listed"] = true
+					if !c.cls.limited() && limCertainAt(cr.start) && !nonLimPossiblyIn(cr.start, cr.start) {
+						r.nontr = true
+						r.labels["caller-starts-with-closing-nonlimited+live-limited"] = true
+					}
+				}
 			}
 		}
 
